@@ -1,4 +1,5 @@
 import WtfModel.Props.C05
+import WtfModel.Props.C05b
 #print axioms Wtf.C05.key_covers_reads
 #print axioms Wtf.C05.code_shape
 #print axioms Wtf.C05.proj_sound
@@ -11,3 +12,13 @@ import WtfModel.Props.C05
 #print axioms Wtf.C05.disabled_bypasses
 #print axioms Wtf.C05.switches_agree
 #print axioms Wtf.C05.old_fallback_breaks_transparency
+#print axioms Wtf.C05.key_names_ok
+#print axioms Wtf.C05.key_text_injective
+#print axioms Wtf.C05.key_families_disjoint
+#print axioms Wtf.C05.enc_separates
+#print axioms Wtf.C05.enc_separates_finite
+#print axioms Wtf.C05.transparent_keyed
+#print axioms Wtf.C05.transparent_keyed_finite
+#print axioms Wtf.C05.no_sharing_keyed
+#print axioms Wtf.C05.no_sharing_keyed_finite
+#print axioms Wtf.C05.norm_valid_model
